@@ -396,3 +396,55 @@ func c45Opaque(maxN int) {
 
 func Verif_C45_Opaque()  { c45Opaque(4) }
 func Verif_C45_OpaqueT() { c45Opaque(7) }
+
+// c45Subpackets: parseSignatureSubpackets (the loop over parseSignatureSubpacket used by
+// Signature.parse for the hashed and the unhashed area) on EVERY byte string of length 0..maxN,
+// as hashed and as unhashed area: never panics; returns nil or an error. Covers the one-, two-
+// and five-octet subpacket lengths, truncation, zero-length subpackets, every subpacket type
+// (each parser's own length checks) and the embedded-signature recursion on short bodies.
+func c45Subpackets(maxN int) {
+	n := verifrt.Choose(0, maxN)
+	area := verifrt.Bytes(n)
+	isHashed := verifrt.Choose(0, 1) == 1
+	sig := new(Signature)
+	var err error
+	panicked := verifrt.Panics(func() { err = parseSignatureSubpackets(sig, area, isHashed) })
+	verifrt.Assert(!panicked, "parseSignatureSubpackets does not panic")
+	if err == nil {
+		verifrt.Assert(isHashed, "an area without a creation time is rejected (creation time only in hashed areas)")
+		verifrt.Reach("subpackets-ok")
+	} else {
+		verifrt.Reach("subpackets-error")
+	}
+}
+
+// Verif_C45_Subpackets: area length 0..6 (a creation-time subpacket, the shortest accepted
+// area, is 6 bytes).
+func Verif_C45_Subpackets() { c45Subpackets(6) }
+
+// Verif_C45_SubpacketsT: area length 0..7.
+func Verif_C45_SubpacketsT() { c45Subpackets(7) }
+
+// Verif_C45_SignatureTemplate: packet.Read on a version-4 signature packet (tag 2) whose fixed
+// fields are concrete (RSA, SHA-256) and whose hashed area is a 6-byte creation-time subpacket
+// followed by one symbolic subpacket of 0..3 body bytes (symbolic length octet, type and body),
+// empty unhashed area, symbolic hash tag and a 1-byte RSA MPI: no panic through the public entry.
+func Verif_C45_SignatureTemplate() {
+	k := verifrt.Choose(1, 5) // bytes of the symbolic subpacket incl. its length octet
+	sp := verifrt.Bytes(k)
+	hashed := append([]byte{5, 2, 0x50, 0, 0, 0}, sp...)
+	body := []byte{4, 0, 1, 8, 0, byte(len(hashed))}
+	body = append(body, hashed...)
+	body = append(body, 0, 0)                       // unhashed area length
+	body = append(body, verifrt.U8(), verifrt.U8()) // hash tag
+	body = append(body, 0, 8, verifrt.U8())         // MPI: 8 bits
+	in := append([]byte{0xC2, byte(len(body))}, body...)
+	var err error
+	panicked := verifrt.Panics(func() { _, err = Read(bytes.NewReader(in)) })
+	verifrt.Assert(!panicked, "packet.Read on a signature packet does not panic")
+	if err == nil {
+		verifrt.Reach("sig-ok")
+	} else {
+		verifrt.Reach("sig-error")
+	}
+}
